@@ -360,6 +360,7 @@ impl DropBomb {
         ('nth_at', dict(ret='b', props=P5, spec='requires self.wf(), n <= 3, ensures b == at_n(self.st(), n as nat, kind),                     //@C02,C05:composite-token-test')),
         ('eat', dict(ret='b', props=P5, spec='''
 requires old(self).wf(), kind != SyntaxKind::EOF,
+    kind != SyntaxKind::ERROR,       // the grammar never asks for an ERROR token                  //@C12:error-token-needs-error-event
 ensures
     b == at(old(self).st(), kind),
     !b ==> *final(self) == *old(self),
@@ -373,9 +374,12 @@ ensures
         ('start', dict(ret='m', props=P, ghost=[('let pos = self.events.len() as u32;', 'before', 'assume(self.events@.len() < u32::MAX); /* AP:global bound (DESIGN section 7): the parser records fewer than 2^32 events */')], spec='requires old(self).wf(),\nensures unmoved(*old(self), *final(self)), m.pos == old(self).events@.len(), final(self).events@ == old(self).events@.push(Event::Start { kind: SyntaxKind::TOMBSTONE, forward_parent: None }), fresh_at(final(self).events@, m.pos as int), evf(old(self).events@, final(self).events@, old(self).events@.len() as int),')),
         ('bump', dict(props=P, spec='''
 requires old(self).wf(), kind != SyntaxKind::EOF, at(old(self).st(), kind),           // `assert!(self.eat(kind))`
+    kind != SyntaxKind::ERROR,                                                               //@C12:error-token-needs-error-event
 ensures mono(*old(self), *final(self)), final(self).pos == old(self).pos + raw_len(kind),''')),
         ('bump_any', dict(props=P, spec='''
 requires old(self).wf(),
+    // an ERROR token (a character the lexer does not know) only enters the tree after a diagnostic was recorded (C12)
+    cur(old(self).st()) == SyntaxKind::ERROR ==> old(self).has_err(),                        //@C12:error-token-needs-error-event
 ensures mono(*old(self), *final(self)),
     cur(old(self).st()) != SyntaxKind::EOF ==> final(self).pos == old(self).pos + 1,
     cur(old(self).st()) == SyntaxKind::EOF ==> final(self).pos == old(self).pos,''')),
@@ -383,6 +387,7 @@ ensures mono(*old(self), *final(self)),
                        spec='requires old(self).wf(),\nensures unmoved(*old(self), *final(self)), final(self).has_err(), evf(old(self).events@, final(self).events@, old(self).events@.len() as int),   // (pushes one Error event)')),
         ('expect', dict(ret='b', props=P, spec='''
 requires old(self).wf(), kind != SyntaxKind::EOF,
+    kind != SyntaxKind::ERROR,                                                               //@C12:error-token-needs-error-event
 ensures b == at(old(self).st(), kind), mono(*old(self), *final(self)),
     b ==> final(self).pos == old(self).pos + raw_len(kind), !b ==> final(self).pos == old(self).pos && final(self).has_err(),''')),
         ('err_and_bump', dict(props=P, spec='''requires old(self).wf(),
@@ -396,6 +401,7 @@ ensures mono(*old(self), *final(self)), final(self).has_err(), final(self).pos <
         && !crate::token_set::has(recovery, cur(old(self).st()))) ==> final(self).pos == old(self).pos + 1,''')),
         ('do_bump', dict(props=P, spec='''
 requires old(self).wf(), old(self).pos + n_raw_tokens <= old(self).inp.kind@.len(), n_raw_tokens >= 1,      // (call sites: 1, or the 2 / 3 pieces of a composite token)
+    kind == SyntaxKind::ERROR ==> old(self).has_err(),                                       //@C12:error-token-needs-error-event
 ensures final(self).wf(), final(self).inp == old(self).inp, final(self).pos == old(self).pos + n_raw_tokens,
     final(self).events@ == old(self).events@.push(Event::Token { kind, n_raw_tokens }), old(self).has_err() ==> final(self).has_err(),''')),
         ('push_event', dict(props=P, ghost=[('self.events.push(event);', 'before', 'proof { lemma_has_err_push(self.events@, event); }')],
@@ -483,6 +489,10 @@ ensures unmoved(*old(p), *final(p)), r.kind == self.kind, r.pos == self.pos,
     # token before it calls back into the grammar (C01 stage 3: needed by the recursion measure)
     MODK = '(%s == SyntaxKind::INV_KW || %s == SyntaxKind::POW_KW || %s == SyntaxKind::CTRL_KW || %s == SyntaxKind::NEGCTRL_KW)' % (CUR, CUR, CUR, CUR)
     REQ = {
+        # dispatched on their keyword (params.rs / expressions.rs, items.rs opt_item); they begin by consuming it
+        'q_or_c_reg_param': ' (%s || %s),' % (at('T![creg]'), at('T![qreg]')),
+        'q_or_c_reg_declaration': ' (%s || %s),' % (at('T![creg]'), at('T![qreg]')),
+        'io_declaration_stmt': ' (%s || %s),' % (at('T![input]'), at('T![output]')),
         'cast_expr': ' is_classical_k(%s),' % CUR,
         'modified_gate_call_expr': ' %s,' % MODK,
     }
@@ -566,7 +576,7 @@ pub mod entry {
 """)
     g = U.file(G)
     g.fn('source_file', depth=2, spec=gspec('', ' ' + PW + 'cur(final(p).st()) == SyntaxKind::EOF,                  //@C02,C01:whole-input-consumed\n    // called on a fresh parser, the event list is one SOURCE_FILE node: its Start comes first and its Finish last\n    old(p).events@.len() == 0 ==> crate::event::root_first(final(p).events@) && final(p).events@.last() is Finish,       //@C02,C01:one-root-node'), props=P, nodecreases=True, qualname='entry::top::source_file')
-    g.fn('expr', depth=2, spec=gspec(), props=P, nodecreases=True, qualname='entry::top::expr', ghost=[('m.complete(p, ERROR);', 'before', 'assume(p.has_err()); // KF:C12-expr-entry-error-node')], loops={1: 'invariant crate::parser::mono(*old(p), *p),\ndecreases crate::parser::rem(p.st()),'})
+    g.fn('expr', depth=2, spec=gspec(), props=P, nodecreases=True, qualname='entry::top::expr', ghost=[('            while !p.at(EOF)', 'before', 'assume(p.has_err()); // KF:C12-expr-entry-error-node\n')], loops={1: 'invariant crate::parser::mono(*old(p), *p), p.has_err(),\ndecreases crate::parser::rem(p.st()),'})
     U.raw('    }\n}\n')
     g.item('enum', 'BlockLike')
     g.impl('BlockLike', [('is_block', dict(ret='r', props=P, spec='ensures r == (self == BlockLike::Block),')),
